@@ -342,11 +342,18 @@ impl MultiState {
             }
         }
 
+        let nothing_to_draw = draw_state.lines.is_empty();
         drop(draw_state);
         let drawable = drawable.draw();
 
         for index in reap_indices {
             self.remove_idx(index);
+        }
+
+        // After a draw without any lines the cursor is no longer on the last line below the
+        // zombie lines, so they cannot be erased relative to it any more: they stay as they are.
+        if nothing_to_draw {
+            self.zombie_lines_count = VisualLines::default();
         }
 
         // The zombie lines were drawn for the last time, so make `DrawTarget` forget about them
